@@ -46,7 +46,8 @@ func (prop) Sweep(tier string) []kernel.Scenario { return nil }
 
 func (prop) Describe() kernel.Description {
 	return kernel.Description{
-		Rule: "one run = one Runtime.Submit in a synctest bubble; payload kind drawn from {nil, value × (json,xml,text,bytes,yaml producer), io.Reader, " +
+		Rule: "Dimensions added with the seed waves: in-memory reader payloads (*bytes.Buffer, *bytes.Reader, *strings.Reader); source errors of several values (private, io.ErrUnexpectedEOF, wrapping io.EOF, io.ErrClosedPipe, wrapping context.Canceled), transient or reported once; an auth writer that inspects the request; the writer installed as Runtime.DefaultAuthentication; sources renamed with runtime.NamedReader; debug mode; seekable sources handed over past their start. " +
+			"one run = one Runtime.Submit in a synctest bubble; payload kind drawn from {nil, value × (json,xml,text,bytes,yaml producer), io.Reader, " +
 			"io.ReadCloser, urlencoded fields, multipart fields, files, fields+files} with 1–3 field names, several values and files per name, " +
 			"awkward file names (quotes, backslashes, directories, spaces), contents of every length around the 512-byte sniffing window " +
 			"(text / binary / PNG-like / empty), declared ContentType() or not, first read shorter than the window, zero-length reads, data+EOF; " +
